@@ -31,9 +31,17 @@ def results():
     try:
         if os.path.exists(cache):
             return json.load(open(cache))
-        shutil.copy(os.path.join(facts.REPO, "Cargo.lock"), os.path.join(WDIR, "Cargo.lock"))
+        wdir = WDIR
+        if facts.REPO != "/repo":
+            # self-test against a scratch copy of the repository: same witnesses, path dependencies rewritten
+            wdir = os.path.join(facts.WORK, "witness-crate")
+            shutil.rmtree(wdir, ignore_errors=True)
+            shutil.copytree(WDIR, wdir, ignore=shutil.ignore_patterns("target", "Cargo.lock"))
+            t = open(os.path.join(wdir, "Cargo.toml")).read().replace('"/repo', '"' + facts.REPO)
+            open(os.path.join(wdir, "Cargo.toml"), "w").write(t)
+        shutil.copy(os.path.join(facts.REPO, "Cargo.lock"), os.path.join(wdir, "Cargo.lock"))
         env = dict(os.environ, CARGO_TARGET_DIR=os.path.join(facts.WORK, "witness-target"), CARGO_NET_OFFLINE="true")
-        p = subprocess.run(["cargo", "+nightly", "test", "--doc", "--offline"], cwd=WDIR, env=env, text=True,
+        p = subprocess.run(["cargo", "+nightly", "test", "--doc", "--offline"], cwd=wdir, env=env, text=True,
                            stdout=subprocess.PIPE, stderr=subprocess.STDOUT)
         out = {"tests": {}, "ok": p.returncode == 0, "tail": p.stdout[-3000:]}
         for m in re.finditer(r"^test src/lib\.rs - (\S+) \(line (\d+)\)( - compile fail| - compile)? \.\.\. (\w+)", p.stdout, re.M):
